@@ -73,6 +73,9 @@ def install_lock_patch():
     threading.Lock = CoopLock
     # Condition.wait / Semaphore / Event / queue build their waiter locks with this name
     threading._allocate_lock = CoopLock
+    # re-entrant locks: the pure-Python RLock is built on _allocate_lock (= CoopLock), the C one
+    # would block the OS thread of a parked actor's rival for good
+    threading._CRLock = None
     _install_thread_seam()
 
 
